@@ -453,8 +453,33 @@ def suite_gen_trvel(rng, tier, shard, nshards):
         return Case("gen.trvel", [fn] + list(c.args), c.call, tol=c.tol, tag="gen " + (c.tag or fn), info=info,
                     nontrivial=c.nontrivial, post=c.post)
     ops = ("transcription.average_overlap_ratio", "transcription_velocity.match_notes",
-           "transcription_velocity.precision_recall_f1_overlap")
-    for key in ("transcription.average_overlap_ratio", "transcription_velocity.scores", "transcription_velocity.validate"):
+           "transcription_velocity.precision_recall_f1_overlap", "transcription.evaluate", "transcription_velocity.evaluate")
+    # evaluate() with keywords left out (= the callees' defaults) and with offset_ratio=None alone
+    import mir_eval.transcription as _T
+    import mir_eval.transcription_velocity as _TV
+    import numpy as np
+    for _ in range(30 if tier == "quick" else 600):
+        lat, p, ref, est = TRS.instance(rng)
+        ri, rp, ei, ep = TRS.m_ivals(ref), TRS.m_pitches(ref), TRS.m_ivals(est), TRS.m_pitches(est)
+        for none_ratio in (False, True):
+            kw = {"offset_ratio": None} if none_ratio else {}
+            kws = ["absent", "absent", None if none_ratio else "absent", "absent", "absent"]
+            inf = dict(TRS.info(lat, p, ref, est), op="gen.trvel", fn="transcription.evaluate", kwargs=sorted(kw))
+            if "transcription.evaluate" in avail:
+                yield Case("gen.trvel", ["transcription.evaluate", ri, rp, ei, ep] + kws + ["absent"],
+                           lambda ref=ref, est=est, kw=kw: _T.evaluate(TRS.ivals(ref), TRS.pitches(ref), TRS.ivals(est),
+                                                                       TRS.pitches(est), **kw),
+                           tag="gen evaluate keywords absent", info=inf, nontrivial=bool(ref and est))
+            if "transcription_velocity.evaluate" in avail and not (ref and est):
+                # (with notes on both sides the velocity margin rule would be needed: the velocity stream below has those)
+                rv = [_Fr(64)] * len(ref)
+                ev = [_Fr(64)] * len(est)
+                yield Case("gen.trvel", ["transcription_velocity.evaluate", ri, rp, rv, ei, ep, ev] + kws + ["absent", "absent"],
+                           lambda ref=ref, est=est, rv=rv, ev=ev, kw=kw: _TV.evaluate(
+                               TRS.ivals(ref), TRS.pitches(ref), TRS.farr(rv), TRS.ivals(est), TRS.pitches(est), TRS.farr(ev), **kw),
+                           tag="gen velocity evaluate keywords absent", info=dict(inf, fn="transcription_velocity.evaluate"))
+    for key in ("transcription.average_overlap_ratio", "transcription.evaluate", "transcription_velocity.scores",
+                "transcription_velocity.validate"):
         for c in TRS.SUITES[key](rng, tier, shard, nshards):
             if c.op in ops and c.op in avail and not any(isinstance(a, list) and any(x is None for x in a) for a in c.args):
                 yield retarget(c)
